@@ -86,8 +86,18 @@ func c13Queries(rep *vrep.Report, store string, arrival string, order []cid.Cid,
 	for s := -2; s < n; s++ {
 		for u := -2; u < n; u++ {
 			for _, rev := range []bool{false, true} {
-				got, err := list(idOf(s), idOf(u), rev)
+				var got []string
+				var err error
+				var pan interface{}
+				func() {
+					defer func() { pan = recover() }()
+					got, err = list(idOf(s), idOf(u), rev)
+				}()
 				c := c13Case{Store: store, N: n, Arrival: arrival, Since: s, Until: u, Reverse: rev}
+				if pan != nil {
+					rep.Violation("C13/listing-panics", fmt.Sprintf("%s store, %d entries (%s): since=%d until=%d reverse=%v panics: %v", store, n, arrival, s, u, rev, pan), c)
+					continue
+				}
 				lo, hi := 0, n-1
 				if s >= 0 {
 					lo = s
